@@ -216,6 +216,18 @@ func genCaco3Loader(repo string, fs facts) (string, error) {
 		shape["depsBeforeBuild"] = d >= 0 && l > d
 	}
 
+	// Builder.buildNodes: a source-file target is skipped, the loop goes on
+	if fd := p.fn("Builder", "buildNodes"); fd != nil {
+		ast.Inspect(fd.Body, func(n ast.Node) bool {
+			ifs, ok := n.(*ast.IfStmt)
+			if !ok || p.src(ifs.Cond) != "n.typ == nodeSrc" || len(ifs.Body.List) == 0 {
+				return true
+			}
+			shape["srcTargetContinues"] = p.src(ifs.Body.List[len(ifs.Body.List)-1]) == "continue"
+			return false
+		})
+	}
+
 	// the name argument of makeDigest in every meta method
 	fl := newFlow(p)
 	var digestNames [][3]string
@@ -246,7 +258,7 @@ func genCaco3Loader(repo string, fs facts) (string, error) {
 	var keys []string
 	for _, k := range []string{"dedupDirs", "subDirsSorted", "registerBeforeSubDirs", "pushFirst", "popDeferred", "loadedConsulted",
 		"loadedAfterDeps", "pushRejectsOnStack", "popRemovesTop", "registerRejectsEmpty", "registerRejectsDup",
-		"repoDirsSorted", "errorsStopBeforeLoad", "errorsStopAfterLoad", "buildMemoConsulted", "buildMemoFilled", "depsBeforeBuild"} {
+		"repoDirsSorted", "errorsStopBeforeLoad", "errorsStopAfterLoad", "buildMemoConsulted", "buildMemoFilled", "depsBeforeBuild", "srcTargetContinues"} {
 		keys = append(keys, k)
 	}
 
